@@ -119,6 +119,33 @@ def EWorld.elemMove (ew : EWorld) (a b : Nat) : EWorld :=
     let (p, p0) := ea.ptr.moveCtor
     { ((ew.setE b (some { ea with ptr := p })).setE a (some { ea with ptr := p0, val := [] })) with w := { ew.w with threw := false } }
 
+/-- `Element{const Element&, allocator}` (`element.hpp:75-81`): a block for `size_in_bytes()` from the given allocator,
+    the source is not touched -/
+def EWorld.elemCopyA (ew : EWorld) (ps : List Param) (a b alloc : Nat) : EWorld :=
+  match ew.elems a with
+  | none => ew
+  | some ea =>
+    match Ptr.make ew.w.heap (units ea.bytes (storageAl ps)) (storageAl ps) alloc with
+    | (h1, none) => { ew with w := { ew.w with heap := h1, threw := true } }
+    | (h1, some p) => { (ew.setE b (some { ea with ptr := p })) with w := { ew.w with heap := h1, threw := false } }
+
+/-- `Element{Element&&, allocator}` (`element.hpp:91-98`, acquire_memory / acquire_reference): the block is stolen when
+    the allocators compare equal; otherwise a block of the source's size is taken from the given allocator and the fields
+    are move-constructed into it (the source keeps its block and holds moved-from values) -/
+def EWorld.elemMoveA (ew : EWorld) (ps : List Param) (a b alloc : Nat) : EWorld :=
+  match ew.elems a with
+  | none => ew
+  | some ea =>
+    if ew.w.acfg.eq alloc ea.ptr.alloc then
+      let (p, p0) := ea.ptr.moveCtor
+      { ((ew.setE b (some { ea with ptr := p })).setE a (some { ea with ptr := p0, val := [] })) with w := { ew.w with threw := false } }
+    else
+      match Ptr.make ew.w.heap ea.ptr.units (storageAl ps) alloc with
+      | (h1, none) => { ew with w := { ew.w with heap := h1, threw := true } }
+      | (h1, some p) =>
+        { ((ew.setE b (some { ea with ptr := p })).setE a (some { ea with val := movedValues ps ea.val })) with
+          w := { ew.w with heap := h1, threw := false } }
+
 /-- `eD = eS` (`element.hpp` copy_assign) -/
 def EWorld.elemAssign (ew : EWorld) (ps : List Param) (a b : Nat) : EWorld :=
   if a = b then { ew with w := { ew.w with threw := false } } else
